@@ -201,25 +201,75 @@ def present(fn):
 
 def module_constants(tree):
     """module-level NAME = <literal tuple / dict of constants, possibly naming other such constants>, NAME bound once in the module:
-    -> {NAME: literal with the inner names written out}"""
+    -> {NAME: literal with the inner names written out}.  Rows built with a module-level namedtuple type (T = namedtuple('T', 'a b');
+    TABLE = (T(1, 2), ...)) are written record__(a=1, b=2): vcheck/equiv.py reads `.a` / `[0]` of such a record."""
     import copy as _copy
+
+    def bound_once(nm):
+        return sum(1 for z in ast.walk(tree) if isinstance(z, ast.Name) and z.id == nm and isinstance(z.ctx, (ast.Store, ast.Del))) == 1
+    ntypes = {}
+    for st in tree.body:
+        if isinstance(st, ast.Assign) and len(st.targets) == 1 and isinstance(st.targets[0], ast.Name) and isinstance(st.value, ast.Call) \
+                and dotted(st.value.func) in ('namedtuple', 'collections.namedtuple') and len(st.value.args) == 2 and not st.value.keywords and bound_once(st.targets[0].id):
+            f = st.value.args[1]
+            fields = None
+            if isinstance(f, ast.Constant) and isinstance(f.value, str):
+                fields = f.value.replace(',', ' ').split()
+            elif isinstance(f, (ast.Tuple, ast.List)) and all(isinstance(e, ast.Constant) and isinstance(e.value, str) for e in f.elts):
+                fields = [e.value for e in f.elts]
+            if fields and all(x.isidentifier() for x in fields) and len(set(fields)) == len(fields):
+                ntypes[st.targets[0].id] = fields
+
+    def literalish(v):
+        for x in ast.walk(v):
+            if isinstance(x, ast.Call):
+                if not (isinstance(x.func, ast.Name) and x.func.id in ntypes and not any(isinstance(a_, ast.Starred) for a_ in x.args) and all(k.arg for k in x.keywords)):
+                    return False
+            elif not isinstance(x, (ast.Dict, ast.Tuple, ast.Constant, ast.Name, ast.expr_context, ast.keyword)):
+                return False
+        return True
     cand = {}
     for st in tree.body:
-        if isinstance(st, ast.Assign) and len(st.targets) == 1 and isinstance(st.targets[0], ast.Name) and isinstance(st.value, (ast.Dict, ast.Tuple)) \
-                and all(isinstance(x, (ast.Dict, ast.Tuple, ast.Constant, ast.Name, ast.expr_context)) for x in ast.walk(st.value)):
+        if isinstance(st, ast.Assign) and len(st.targets) == 1 and isinstance(st.targets[0], ast.Name) and isinstance(st.value, (ast.Dict, ast.Tuple)) and literalish(st.value):
             nm = st.targets[0].id
-            if sum(1 for z in ast.walk(tree) if isinstance(z, ast.Name) and z.id == nm and isinstance(z.ctx, (ast.Store, ast.Del))) == 1:
+            if bound_once(nm):
                 cand[nm] = st.value
-    done = {k: v for k, v in cand.items() if not any(isinstance(x, ast.Name) for x in ast.walk(v))}
+
+    def records(v):
+        class RC(ast.NodeTransformer):
+            def visit_Call(self, n):
+                self.generic_visit(n)
+                fields = ntypes[n.func.id]
+                kws = {}
+                if len(n.args) > len(fields):
+                    raise ValueError('too many fields')
+                for f_, a_ in zip(fields, n.args):
+                    kws[f_] = a_
+                for k in n.keywords:
+                    if k.arg in kws or k.arg not in fields:
+                        raise ValueError('bad field')
+                    kws[k.arg] = k.value
+                if set(kws) != set(fields):
+                    raise ValueError('missing field')
+                return ast.Call(func=ast.Name(id='record__', ctx=ast.Load()), args=[], keywords=[ast.keyword(arg=f_, value=kws[f_]) for f_ in fields])
+        return RC().visit(_copy.deepcopy(v))
+    for k in list(cand):
+        try:
+            cand[k] = records(cand[k])
+        except Exception:
+            del cand[k]
+
+    def inner_names(v):
+        return {x.id for x in ast.walk(v) if isinstance(x, ast.Name) and x.id != 'record__'}
+    done = {k: v for k, v in cand.items() if not inner_names(v)}
     for _ in range(4):
         for k, v in cand.items():
             if k in done:
                 continue
-            names = {x.id for x in ast.walk(v) if isinstance(x, ast.Name)}
-            if names <= set(done):
+            if inner_names(v) <= set(done):
                 class R(ast.NodeTransformer):
                     def visit_Name(self, n):
-                        return _copy.deepcopy(done[n.id])
+                        return _copy.deepcopy(done[n.id]) if n.id in done else n
                 done[k] = R().visit(_copy.deepcopy(v))
     return done
 
@@ -344,6 +394,29 @@ def present_tables(fn, sigdb, ref=None):
                 return n
             return ast.copy_location(G().visit(un), n)
     fn.body = [LC().visit(b) for b in fn.body]
+
+    # a, b = [x, y] / (x, y) with pure elements that do not read a or b -> a = x; b = y
+    def split_unpack(stmts):
+        out = []
+        for st in stmts:
+            for f in ('body', 'orelse', 'finalbody'):
+                b = getattr(st, f, None)
+                if isinstance(b, list) and b and isinstance(b[0], ast.stmt) and not isinstance(st, (ast.FunctionDef, ast.ClassDef)):
+                    setattr(st, f, split_unpack(b))
+            if isinstance(st, ast.Try):
+                for h in st.handlers:
+                    h.body = split_unpack(h.body)
+            if isinstance(st, ast.Assign) and len(st.targets) == 1 and isinstance(st.targets[0], (ast.Tuple, ast.List)) and isinstance(st.value, (ast.Tuple, ast.List)) \
+                    and len(st.targets[0].elts) == len(st.value.elts) and all(isinstance(t, ast.Name) for t in st.targets[0].elts) \
+                    and not any(isinstance(e, ast.Starred) for e in st.value.elts) and all(equiv.is_pure(e) for e in st.value.elts):
+                tn = {t.id for t in st.targets[0].elts}
+                if not any(isinstance(x, ast.Name) and x.id in tn for e in st.value.elts for x in ast.walk(e)):
+                    for t, e in zip(st.targets[0].elts, st.value.elts):
+                        out.append(ast.copy_location(ast.Assign(targets=[t], value=e), st))
+                    continue
+            out.append(st)
+        return out
+    fn.body = split_unpack(fn.body)
     # a local name for an attribute chain (flange = self.flange), bound once, the chain never stored to in this function: written out
     counts = {}
     for n in ast.walk(fn):
